@@ -48,11 +48,15 @@ where
     C: ConcurrentIter<Item = Box<usize>>,
 {
     let sum = AtomicUsize::new(0);
+    // all threads start pulling together (otherwise the first one drains a small source alone)
+    let gate = std::sync::Barrier::new(threads);
     std::thread::scope(|s| {
         for t in 0..threads {
             let it = &it;
             let sum = &sum;
+            let gate = &gate;
             s.spawn(move || {
+                gate.wait();
                 if let Some(k) = skip_at {
                     if t == 0 {
                         for _ in 0..k {
@@ -86,10 +90,10 @@ fn main() {
     let sc = std::env::args().nth(1).unwrap_or_else(|| "iter".into());
     let n = 14;
     match sc.as_str() {
-        "iter" => run(boxed(n).into_iter().into_con_iter(), n, 3, None, false),
-        "iter_skip" => run(boxed(n).into_iter().into_con_iter(), n, 3, Some(3), true),
-        "vec" => run(boxed(n).into_con_iter(), n, 3, None, false),
-        "vec_skip" => run(boxed(n).into_con_iter(), n, 3, Some(2), true),
+        "iter" => run(boxed(n).into_iter().into_con_iter(), n, 4, None, false),
+        "iter_skip" => run(boxed(n).into_iter().into_con_iter(), n, 4, Some(3), true),
+        "vec" => run(boxed(n).into_con_iter(), n, 4, None, false),
+        "vec_skip" => run(boxed(n).into_con_iter(), n, 4, Some(2), true),
         "vec_partial" => {
             let it = boxed(n).into_con_iter();
             let _ = it.next();
@@ -100,11 +104,11 @@ fn main() {
         }
         "array" => {
             let a: [Box<usize>; 9] = std::array::from_fn(Box::new);
-            run(a.into_con_iter(), 9, 3, None, false)
+            run(a.into_con_iter(), 9, 4, None, false)
         }
         "array_skip" => {
             let a: [Box<usize>; 9] = std::array::from_fn(Box::new);
-            run(a.into_con_iter(), 9, 3, Some(2), true)
+            run(a.into_con_iter(), 9, 4, Some(2), true)
         }
         other => panic!("unknown scenario {other}"),
     }
